@@ -274,11 +274,25 @@ def main():
 
     obligations = []  # dict(id, verdict, ...)
     internal = []
+    unstable_lemmas = []
     for u in units:
         r = results[u]
-        if r["stray"]:
+        stray_now = r["stray"]
+        if stray_now and all(x["kind"] == "rlimit" for x in stray_now):
+            # a lemma ran out of resources: solver instability (the lemma text does not depend on /repo); retry at 4x
+            # rlimit under other seeds before calling it an error of the machinery
+            for sd in (1, 2, 3):
+                r2 = run_unit(u, workdir, extra=["--smt-option", "smt.random_seed=%d" % sd], rlimit=40)
+                if not r2["frontend"] and not r2["stray"]:
+                    stray_now = []
+                    unstable_lemmas.append(u)
+                    break
+                if r2["stray"] and not all(x["kind"] == "rlimit" for x in r2["stray"]):
+                    stray_now = r2["stray"]
+                    break
+        if stray_now:
             # errors outside any obligation: lemmas / prelude broken -> machinery error, never an alarm
-            internal.append("unit %s: %d verifier error(s) outside extracted code (lemma/prelude): %s" % (u, len(r["stray"]), r["stray"][0]["message"]))
+            internal.append("unit %s: %d verifier error(s) outside extracted code (lemma/prelude): %s" % (u, len(stray_now), stray_now[0]["message"]))
         for o in r["gen"].obligations:
             if prop not in o["props"]:
                 continue
@@ -532,6 +546,7 @@ def main():
         "rewrites_applied": rewrites,
         "assumption_scan": scan,
         "canaries": canaries,
+        "unstable_lemmas": unstable_lemmas,
         "bounded": bsum,
         "samples": ob_samples + samples,
         "known_findings_hit": sorted(set(x for x in known_hit if x)),
